@@ -21,6 +21,7 @@ import Kopf.Lemmas.C01_Pre
 import Kopf.Lemmas.C01_Term
 import Kopf.Lemmas.C01_Frame
 import Kopf.Lemmas.C01_Fail
+import Kopf.Lemmas.C01_Sched
 namespace Kopf.C01
 
 variable {lim : Option Nat} {ls : List Label} {s : State}
@@ -705,5 +706,73 @@ example : ∃ s, Reach (some 2) exampleTrace s ∧ measure s = 11 ∧ ¬ Quiesce
 /-- in the model of the real code the window of `buggy_loses` does not exist: `retireCheck` is not a label
     of `step` at all. -/
 example (s : State) (w : Wid) : step s (.retireCheck w) = none := by simp [step, stepCore]
+
+/-! ### The hand-over inside `Scheduler.spawn()` (model `C01_Sched.lean`)
+
+The LTS above treats `scheduler.spawn(worker(..))` as part of ONE atomic `insert`, and `spawn` / `left` as always
+possible when their guards hold. That rests on a fact about `aiotasks.Scheduler` itself: `spawn()` puts the job
+into `_pending_coros` while HOLDING `_condition`'s lock, and the spawner and the cleaner need that lock. The
+theorems below are about every label list of the scheduler model, for every worker limit. -/
+
+/-- **`spawn()` never waits, and never keeps the lock.** With the pending queue unbounded (the code as it is:
+    `asyncio.Queue()`), in EVERY reachable state of the scheduler nobody is suspended inside the locked section,
+    and a call of `spawn(j)` completes within its own segment: the job is pending, the spawner is notified, the lock
+    is free again — whatever the limit, however many jobs are pending or running. (This is what makes `insert` of
+    the main LTS atomic and `watcher_never_blocks` true of the code.) -/
+theorem sched_spawn_never_blocks {limit : Option Nat} {ls : List Sched.L} {s : Sched.S}
+    (h : Sched.Reach none limit ls s) :
+    s.blocked = none ∧
+    ∀ j, ∃ s', Sched.step s (.call j) = some s' ∧ s'.blocked = none ∧ s'.pending = s.pending ++ [j] ∧
+      s'.accepted = s.accepted ++ [j] ∧ s'.notified = true := by
+  have hi := Sched.run_inv ls _ s (Sched.inv_init limit) h
+  obtain ⟨hc, hb, _⟩ := hi
+  refine ⟨hb, fun j => ?_⟩
+  have hstep : Sched.step s (.call j) =
+      some { s with pending := s.pending ++ [j], notified := true, accepted := s.accepted ++ [j] } := by
+    simp only [Sched.step, hb, if_true, Sched.hasPlace_unbounded s hc]
+  exact ⟨_, hstep, hb, rfl, rfl, rfl⟩
+
+/-- **No lost wake-up.** With the unbounded queue: whenever a job is pending and a slot is free (`_can_spawn()`),
+    the spawner's round or the cleaner's notification is enabled — a free slot is always handed on. -/
+theorem sched_free_slot_is_used {limit : Option Nat} {ls : List Sched.L} {s : Sched.S}
+    (h : Sched.Reach none limit ls s) (hp : s.pending ≠ []) (hr : Sched.room s.limit s.running = true) :
+    (Sched.step s .round).isSome = true ∨ (Sched.step s .clean).isSome = true := by
+  obtain ⟨_, hb, hw⟩ := Sched.run_inv ls _ s (Sched.inv_init limit) h
+  rcases hw hp hr with hn | hcl
+  · left; simp [Sched.step, hn, hb]
+  · right
+    cases hcq : s.cleaning with
+    | nil => exact absurd hcq hcl
+    | cons t rest => simp [Sched.step, hcq, hb]
+
+/-- **A `put()` that once waits for a place waits for ever** (any bound, any limit, any state — not only reachable
+    ones): while a `spawn()` is suspended on the full pending queue it holds the lock, so neither the spawner nor the
+    cleaner nor another `spawn()` can run: whatever happens afterwards (`ls` arbitrary), the only segments are running
+    tasks ending; the pending jobs are never started, the waiting job is never accepted. -/
+theorem sched_blocked_put_is_forever {s s' : Sched.S} {j : Nat} {ls : List Sched.L}
+    (hb : s.blocked = some j) (hf : Sched.hasPlace s = false) (h : Sched.run s ls = some s') :
+    s'.blocked = some j ∧ s'.pending = s.pending ∧ s'.accepted = s.accepted ∧ ∀ l ∈ ls, ∃ i, l = .done i :=
+  Sched.blocked_run ls s s' j hb hf h
+
+/-- **The variant with a bounded pending queue loses events** (`asyncio.Queue(maxsize=limit)`, limit 1): one worker
+    running, one pending, a third object's `spawn()` waits for a place holding the lock; the running worker ends —
+    a slot is free, a job is pending, and NO segment at all is enabled any more: the watcher never returns to the
+    watch-stream. With the unbounded queue the same calls leave the spawner's round enabled (`example` below). -/
+theorem sched_bounded_queue_deadlock_witness :
+    ∃ s, Sched.Reach (some 1) (some 1) [.call 0, .round, .call 1, .round, .call 2, .done 0] s ∧
+      s.pending = [1] ∧ s.running = [] ∧ Sched.canSpawn s = true ∧ s.blocked = some 2 ∧ s.accepted = [0, 1] ∧
+      ∀ l, Sched.step s l = none := by
+  refine ⟨_, rfl, rfl, rfl, rfl, rfl, rfl, ?_⟩
+  intro l
+  cases l <;> rfl
+
+/-- non-vacuity of `sched_blocked_put_is_forever`: the state before `done 0` of the witness meets its hypotheses -/
+example : ∃ s, Sched.Reach (some 1) (some 1) [.call 0, .round, .call 1, .round, .call 2] s ∧
+    s.blocked = some 2 ∧ Sched.hasPlace s = false := ⟨_, rfl, rfl, rfl⟩
+
+/-- the same calls on the code as it is (unbounded queue): the third job is accepted at once, and after the running
+    worker has ended the cleaner's notification and then the spawner's round start the next pending job -/
+example : ∃ s, Sched.Reach none (some 1) [.call 0, .round, .call 1, .round, .call 2, .done 0, .clean, .round] s ∧
+    s.pending = [2] ∧ s.running = [1] ∧ s.blocked = none ∧ s.accepted = [0, 1, 2] := ⟨_, rfl, rfl, rfl, rfl, rfl⟩
 
 end Kopf.C01
